@@ -151,6 +151,10 @@ pub struct WPlan {
     pub fail_at: Option<usize>,
     /// fail the first flush call (sticky)
     pub fail_flush: bool,
+    /// "full disk": after the write fault every further write fails too, but flush reports
+    /// nothing (a writer is free to do so; code that relies on a later flush to surface an
+    /// earlier write error loses it)
+    pub flush_ok_after_write_fault: bool,
     pub fault_id: u32,
     pub kind: Option<ErrorKind>,
 }
@@ -283,6 +287,11 @@ impl Write for SimWriter {
     fn flush(&mut self) -> io::Result<()> {
         let mut s = self.0.lock().unwrap();
         s.flushes += 1;
+        if s.hard_fired && !s.hard_on_flush && s.plan.flush_ok_after_write_fault {
+            s.calls_after_hard += 1;
+            s.note(b'f', 0, 0);
+            return Ok(());
+        }
         if s.hard_fired {
             s.calls_after_hard += 1;
             return Err(sim_io_error(
